@@ -146,6 +146,81 @@ func (m *machine) data(local int, compressed bool) {
 	m.s.Recs = append(m.s.Recs, r)
 }
 
+// longLived builds an activity stream in which 1-3 local types carry record
+// messages defined once at the start, and the remaining local types are
+// redefined over and over (unknown messages with up to 254 one-byte fields),
+// with data records of the long-lived types in between. It returns the stream
+// and the total number of field definitions in it.
+func longLived(d gen.D) (*fitmodel.Stream, int) {
+	s := &fitmodel.Stream{HeaderSize: 12, Proto: 0x20, Recs: []fitmodel.Rec{
+		{IsDef: true, Local: 0, Global: 0, Fields: []fitmodel.FieldDef{{Num: 0, Size: 1, Base: 0}}}, {Local: 0, Raw: []byte{4}},
+	}}
+	total := 1
+	nlong := d.Int(1, 3, "nlong")
+	var long []fitmodel.Rec
+	used := map[int]bool{0: true}
+	for i := 0; i < nlong; i++ {
+		l := d.Int(1, 15, "longlocal")
+		for used[l] {
+			l = l%15 + 1
+		}
+		used[l] = true
+		// heart_rate, cadence (uint8), power (uint16), in a drawn order
+		def := fitmodel.Rec{IsDef: true, Local: byte(l), Global: 20, BigEndian: d.Bool("longbe"),
+			Fields: [][]fitmodel.FieldDef{
+				{{Num: 3, Size: 1, Base: 2}, {Num: 4, Size: 1, Base: 2}, {Num: 7, Size: 2, Base: 0x84}},
+				{{Num: 7, Size: 2, Base: 0x84}, {Num: 3, Size: 1, Base: 2}},
+				{{Num: 4, Size: 1, Base: 2}, {Num: 7, Size: 2, Base: 0x84}, {Num: 3, Size: 1, Base: 2}},
+			}[d.Int(0, 2, "longfields")]}
+		s.Recs = append(s.Recs, def)
+		total += len(def.Fields)
+		long = append(long, def)
+	}
+	var churn []int
+	for l := 1; l < 16; l++ {
+		if !used[l] {
+			churn = append(churn, l)
+		}
+	}
+	target := []int{4081, 4100, 4500, 8200, 12500, 800}[d.Int(0, 5, "target")]
+	nf := []int{254, 254, 100, 17, 5}[d.Int(0, 4, "nf")]
+	seq := byte(1)
+	emit := func() {
+		def := long[d.Int(0, len(long)-1, "whichlong")]
+		r := fitmodel.Rec{Local: def.Local}
+		for _, fd := range def.Fields {
+			for k := 0; k < int(fd.Size); k++ {
+				r.Raw = append(r.Raw, seq)
+				seq = seq%250 + 1
+			}
+		}
+		s.Recs = append(s.Recs, r)
+	}
+	emit()
+	for n := 0; total < target; n++ {
+		def := fitmodel.Rec{IsDef: true, Local: byte(churn[d.Int(0, len(churn)-1, "churnlocal")]), Global: 0xFF20, BigEndian: n%2 == 1}
+		for k := 0; k < nf; k++ {
+			num := byte(k)
+			if k >= 253 {
+				num = byte(k + 1) // not 253
+			}
+			def.Fields = append(def.Fields, fitmodel.FieldDef{Num: num, Size: 1, Base: 2})
+		}
+		s.Recs = append(s.Recs, def)
+		total += nf
+		if n%7 == 0 {
+			s.Recs = append(s.Recs, fitmodel.Rec{Local: def.Local, Raw: bytes.Repeat([]byte{0x5A}, nf)})
+		}
+		if every := 1 + 600/nf; n%every == 0 {
+			emit()
+		}
+	}
+	for i := 0; i < 3; i++ {
+		emit()
+	}
+	return s, total
+}
+
 func chainedUndefined(rec *hx.Recorder) {
 	n := int64(0)
 	for local := 0; local < 16; local++ {
@@ -231,6 +306,33 @@ func TestC13(t *testing.T) {
 		if hx.FirstShard() {
 			chainedUndefined(rec)
 		}
+
+		// long-lived definitions: one local type is defined once and used
+		// throughout while the other local types are redefined hundreds of
+		// times, with thousands of field definitions in total (whatever the
+		// decoder keeps per definition must stay intact however much is
+		// defined afterwards)
+		longCases, longFailed := 0, false
+		hx.RapidCheck(t, rec, "long-lived", func(rt *rapid.T, fail func(string, string, any)) {
+			if longCases >= hx.Pick(30, 400) && !longFailed {
+				return
+			}
+			longCases++
+			d := gen.D{T: rt}
+			s, total := longLived(d)
+			c := streamCase{FileType: 4, Stream: s, Text: ""}
+			rec.Eval("long-lived", 1)
+			rec.Class("long-lived: field definitions per stream (hundreds)", int64(total/100))
+			if total > 4096 {
+				rec.Class("long-lived: more than 4096 field definitions in one file", 1)
+				rec.NonTrivial(hx.FPBytes(s.Bytes()))
+			}
+			if msg, ok := checkStream(rec, c); !ok {
+				longFailed = true
+				c.Text = fmt.Sprintf("(%d records, %d field definitions in total)", len(s.Recs), total)
+				fail("", msg, c)
+			}
+		})
 
 		hx.RapidCheck(t, rec, "machine", func(rt *rapid.T, fail func(string, string, any)) {
 			d := gen.D{T: rt}
